@@ -429,6 +429,10 @@ def run(rep, tier, seed):
                 pass
             ext = synq.method_calls(ga["body"], "extend")
             if not ext:
+                # the same written as a loop: `for c in group_constraints { map.insert(..) }` on a clone of the enclosing map
+                loops = synq.find_all(ga["body"], lambda x: x.get("k") == "For" and synq.method_calls(x["body"], "insert"))
+                ext = [l_ for l_ in loops if "constraints" in synq.expr_skel(l_["iter"]) or "constraints" in str(l_["iter"])]
+            if not ext:
                 rep.add("C09|groups|constraints-not-extended", "group constraints do not extend the enclosing constraints", AN)
         # no group declaration survives
         n["rules"] += 1
